@@ -40,7 +40,7 @@ THOROUGH_SAMPLE4 = 2500
 BOUNDS = {
     "quick": {"grammars": f"fixed list of {{n_fixed}} + all with <= 2 productions and right-hand sides <= 2 + seeded sample of "
                           f"{QUICK_SAMPLE} of the <= 3-production space (VERIF_SEED)",
-              "productions": "<= 3 (fixed list: <= 4)", "rhs_length": "<= 3", "terminals": 2, "nonterminals": 2,
+              "productions": "<= 3 (fixed list: <= 5, six of them with 3 non-terminals)", "rhs_length": "<= 3", "terminals": 2, "nonterminals": 2,
               "epsilon_productions": "allowed", "token_sequence_length": "0..5 (symbolic length, symbolic kinds)"},
     "thorough": {"grammars": "fixed list + ALL 2652 grammars with <= 3 productions and right-hand sides <= 2, + seeded samples of "
                              f"{THOROUGH_SAMPLE3} of the 207915 grammars with 2..3 productions / rhs <= 3 and of {THOROUGH_SAMPLE4} "
@@ -101,6 +101,14 @@ FIXED = [
     [["S", "Sba"], ["S", "Abb"], ["S", "a"], ["A", "a"]],   # unambiguous, LR(2): genuine reduce/reduce conflict
     [["S", "Sba"], ["S", "Abb"], ["S", ""], ["A", ""]],
     [["S", "Aaa"], ["S", "aab"], ["A", "a"]],          # unambiguous, LR(2): shift/reduce
+    # three non-terminals (outside the enumerated space; added after seed C32/C): a non-terminal followed by a
+    # NULLABLE LEFT-RECURSIVE list - the reduce look-ahead of A needs FIRST(B) to contain what follows B in B -> B b
+    [["S", "AB"], ["A", "a"], ["B", "Bb"], ["B", ""]],
+    [["S", "AB"], ["A", "a"], ["B", "bB"], ["B", ""]],
+    [["S", "ABa"], ["A", "b"], ["B", "Bb"], ["B", ""]],
+    [["S", "AB"], ["A", "a"], ["A", ""], ["B", "BbA"], ["B", ""]],
+    [["S", "BA"], ["A", "a"], ["B", "Bb"], ["B", ""]],
+    [["S", "AB"], ["A", "aA"], ["A", ""], ["B", "BA"], ["B", "b"]],
 ]
 BOUNDS["quick"]["grammars"] = BOUNDS["quick"]["grammars"].format(n_fixed=len(FIXED))
 
